@@ -2,6 +2,7 @@ package sym
 
 import (
 	"fmt"
+	"os"
 	"go/constant"
 	"go/token"
 	"go/types"
@@ -16,6 +17,7 @@ import (
 )
 
 var finfoMu sync.Mutex
+var lastProgress time.Time
 
 type jent struct {
 	obj *Object
@@ -141,10 +143,15 @@ func (x *Exec) check(extra *smt.Term, wantModel bool) (smt.Verdict, map[string]u
 			return v, nil
 		}
 	}
-	as := make([]*smt.Term, 0, len(x.pc)+len(x.lemmas)+1)
-	as = append(as, x.pc...)
-	as = append(as, extra)
-	v, m, _ := x.e.S.Check(as, wantModel)
+	tq := time.Now()
+	if os.Getenv("VERIF_SLOW") != "" && tq.Sub(lastProgress) > 10*time.Second {
+		lastProgress = tq
+		fmt.Fprintf(os.Stderr, "progress: paths=%d queries=%d obligations=%d steps=%d forks=%d merges=%d restarts=%d pc=%d at %s\n", x.res.Paths, x.e.S.Queries, x.res.Obligations, x.steps, x.res.Forks, x.res.Merges, x.res.Restarts, len(x.pc), x.where())
+	}
+	v, m, _ := x.e.S.CheckPC(x.pc, extra, wantModel)
+	if dt := time.Since(tq); dt > 5*time.Second && os.Getenv("VERIF_SLOW") != "" {
+		fmt.Fprintf(os.Stderr, "slow query %.1fs -> %v at %s (pc terms %d)\n", dt.Seconds(), v, x.where(), len(x.pc))
+	}
 	x.e.qcache[key] = v
 	return v, m
 }
@@ -381,6 +388,9 @@ func (e *Engine) RunHarness(pkgPath, fname string, args []int64, maxWall time.Du
 		dec := pending[len(pending)-1]
 		pending = pending[:len(pending)-1]
 		res.Paths++
+		if res.Paths%100 == 0 && os.Getenv("VERIF_SLOW") != "" {
+			fmt.Fprintf(os.Stderr, "progress: paths=%d pending=%d queries=%d obligations=%d steps=%d declen=%d\n", res.Paths, len(pending), e.S.Queries-q0, res.Obligations, res.Steps, len(dec))
+		}
 		if res.Paths > e.opts.MaxPaths {
 			res.Err = fmt.Sprintf("path budget exceeded (%d)", e.opts.MaxPaths)
 			return
@@ -789,7 +799,8 @@ func (x *Exec) symbolicIf(fr *Frame, ins *ssa.If, b *ssa.BasicBlock, c *smt.Term
 		return outcome{}, b.Succs[1], ifNext
 	}
 	join := fr.info.ipdom[b.Index]
-	if !x.e.noMerge[ins] {
+	forkHere := x.e.ForkIn[fr.fn.String()] && x.mergeDepth == 0 && !fr.info.regionSimple(fr.fn, b)
+	if !x.e.noMerge[ins] && !forkHere {
 		out, merged := x.tryMerge(fr, ins, b, c, join, stop)
 		if merged {
 			if out.kind == oRet {
